@@ -120,14 +120,14 @@ def check(repo_src, pid=None):
     cur = trusted_keys(h)
     out = []
     for k, e in doc["entries"].items():
-        if pid and pid not in e["properties"]:
+        if pid and not (set(pid if isinstance(pid, (list, tuple)) else [pid]) & set(e["properties"])):
             continue
         if k not in h:
             out.append((k, e["why"], "trusted piece no longer found (renamed, removed or restructured)"))
         elif h[k] != e["sha"]:
             out.append((k, e["why"], "text changed since it was reviewed"))
     for k, (props, why) in cur.items():
-        if k not in doc["entries"] and (not pid or pid in props):
+        if k not in doc["entries"] and (not pid or (set(pid if isinstance(pid, (list, tuple)) else [pid]) & set(props))):
             out.append((k, why, "new piece of trusted code"))
     return out
 
